@@ -187,6 +187,18 @@ def fam_pipeline_fail(seed, big):
             sc["tags"][own] = "we300000"
             out.append(sc)
             i += 1
+    # a signal handler (installed without SA_RESTART) interrupts one of the waits for the commands already started:
+    # the failed attempt must still have reaped every one of them when it returns
+    for n, k in ((2, 1), (3, 2), (3, 1), (4, 3)):
+        for term, stdin, stdout, stderr in (("join", "file", "file", "inherit"), ("popen", "pipe", "pipe", "inherit"),
+                                            ("capture", "data", "pipe", "capture"), ("stream_stdin", "pipe", "file", "inherit")):
+            for nth in (1, 2):
+                if nth > k:
+                    continue
+                sc = pl(i, n, "left", stdin, stdout, stderr, term, 20000, fail_at=k, detached=False, rng=rng)
+                sc["wait_eintr"] = nth
+                out.append(sc)
+                i += 1
     return out
 
 
@@ -291,6 +303,19 @@ def fam_builder(seed, big):
     for _ in range(1500 if big else 250):
         n = rng.randint(3, 12 if big else 8)
         add([rng.choice(BUILDER_OPS) for _ in range(n)], rng.choice(BUILDER_TERMS))
+    # the process environment changes between the builder calls and the launch (another thread, or the caller itself,
+    # calls set_var): whatever the moment the copy is taken, a name removed -- or everything cleared -- before the change
+    # stays absent unless the builder sets it again ("setenv_proc" only ever touches names already edited by the builder)
+    for ops in ([["env_remove", "NO_SUCH_VAR"], ["setenv_proc", "NO_SUCH_VAR", "leak"]],
+                [["env_remove", "A"], ["setenv_proc", "A", "leak"], ["env", "B", "1"]],
+                [["env_remove", "NO_SUCH_VAR"], ["arg", "x"], ["setenv_proc", "NO_SUCH_VAR", "leak"], ["env", "B", "2"]],
+                [["env", "A", "1"], ["env_remove", "A"], ["setenv_proc", "A", "leak"]],
+                [["env_clear"], ["setenv_proc", "A", "leak"]],
+                [["env_remove", "A"], ["clone"], ["setenv_proc", "A", "leak"], ["env", "B", "3"]],
+                [["env_remove", "B"], ["setenv_proc", "B", "leak"], ["env", "B", "set-again"]],
+                [["env", "A", "mine"], ["setenv_proc", "A", "other"]]):
+        for t in ("capture", "join", "popen"):
+            add(ops, t)
     for sh in ("true", "true a  b 'c d'", "exit 0", "true \"$HOME\" ; true", "", "true\nnewline", "echo 'it''s' >/dev/null"):
         add([], "join", shell=sh)
         add([["arg", "extra arg"], ["env", "A", "1"]], "capture", shell=sh)
